@@ -81,6 +81,42 @@ func relay(xs ...int) {
 	fill(50, xs...)
 }
 
+// methods entered with a nil receiver that call further methods on it, or hand it on
+func (t *T) NilA() int {
+	if t == nil {
+		return t.NilB() + 1
+	}
+	return t.A
+}
+
+func (t *T) NilB() int {
+	if t == nil {
+		return 40
+	}
+	return 1
+}
+
+func (t *T) Me() *T {
+	return t
+}
+
+// callees that keep the slice their surplus arguments were packed into
+func keep(xs ...int) []int {
+	return xs
+}
+
+func vsum(n int, xs ...int) int {
+	if n == 0 {
+		return len(xs)
+	}
+	r := vsum(n-1, n, n+1)
+	t := 0
+	for _, x := range xs {
+		t += x
+	}
+	return r + t
+}
+
 func apply(f func(int) int, v int) int {
 	if f == nil {
 		return -1
@@ -323,6 +359,17 @@ func c09GenCase(seed int64, idx int) packedCase {
 			} else {
 				fmt.Fprintf(&sb, "\t%s := %s(%s)\n\tshow(%q, %s)\n", strings.Join(ns, ", "), id, args(), tag, reveal(ns))
 			}
+		case k == 7 && len(rts) >= 2 && func() bool {
+			for _, t := range rts {
+				if t != rts[0] {
+					return false
+				}
+			}
+			return true
+		}():
+			// a typed declaration of several variables from one call
+			ns := resNames(fmt.Sprintf("t%d_", f))
+			fmt.Fprintf(&sb, "\tvar %s %s = %s(%s)\n\tshow(%q, %s)\n", strings.Join(ns, ", "), rts[0], id, args(), tag, reveal(ns))
 		case k == 6:
 			// results assigned to pre-declared variables of the declared types
 			ns := resNames(fmt.Sprintf("a%d_", f))
@@ -347,6 +394,8 @@ func c09GenCase(seed int64, idx int) packedCase {
 		fmt.Fprintf(&sb, "\to := &T{A: %d}\n\tshow(o.MV(%d), o.MV(1, 2), o.Rec(%d))\n", rng.Intn(9), rng.Intn(9), rng.Range(1, 40))
 		// a spread slice through a method reached as an attribute of a local, of a field and of a global
 		fmt.Fprintf(&sb, "\txs := []int{%d, %d, %d}\n\tshow(o.MV(2, xs...), o.MV(3, []int{}...), o.MV(4, xs[:1]...))\n", rng.Intn(9), rng.Intn(9), rng.Intn(9))
+		fmt.Fprintf(&sb, "\tvar nt *T\n\tna := nt.NilA\n\tshow(nt.NilA(), na(), nt.Me().NilB(), nt.Me().Me().NilA())\n")
+		fmt.Fprintf(&sb, "\tk1 := keep(1, 2, 3)\n\tk2 := keep(4, 5)\n\tk3 := keep(%d)\n\tk2[1] = 9\n\tshow(k1, k2, k3, keep() == nil, vsum(3, 7, 8), vsum(2))\n", rng.Intn(9))
 		// a spread slice is passed through unchanged: the callee's writes to its elements are the caller's
 		fmt.Fprintf(&sb, "\tys := []int{1, 2, 3, 4}\n\tfill(%d, ys...)\n\tshow(ys)\n\to.A = 3\n\tshow(o.Scale(ys...), ys)\n\tsc := o.Scale\n\tshow(sc(ys[1:3]...), ys)\n\trelay(ys[2:]...)\n\tshow(ys)\n\tfill(9, 1, 2)\n", rng.Intn(9))
 		fmt.Fprintf(&sb, "\th := &H{O: o}\n\tshow(h.O.MV(5, xs...), gT.MV(6, xs...))\n\tvar none []int\n\tshow(o.MV(7, none...))\n")
